@@ -134,3 +134,52 @@ Proof.
   - unfold classify in HR. destruct L as [|x l]; [congruence|].
     rewrite C, ln_eqb_refl in HR. rewrite HR. apply orb_true_r.
 Qed.
+
+(** ---- bridge for the real snapshot reads -------------------------------------------------- *)
+
+Lemma reads_then_end_spec : forall r, reads_then_end r = true -> exists n, r = repeat RRead n ++ [REnd].
+Proof.
+  induction r as [|e r IH]; simpl; [discriminate|]. intros H.
+  destruct e; try discriminate.
+  - destruct (IH H) as [n ->]. exists (S n). reflexivity.
+  - destruct r; [|discriminate]. exists 0%nat. reflexivity.
+Qed.
+
+Lemma one_bracket_spec rt : one_bracket rt = true ->
+  exists n, rt = RBegin :: repeat RRead (S n) ++ [REnd].
+Proof.
+  destruct rt as [|e r]; [discriminate|]. destruct e; try discriminate.
+  destruct r as [|e r]; [discriminate|]. destruct e; try discriminate. simpl.
+  intros H. destruct (reads_then_end_spec r H) as [n ->]. exists n. reflexivity.
+Qed.
+
+Lemma forallb_repeat_refl x n : forallb (ln_eqb x) (repeat x n) = true.
+Proof. induction n; simpl; [reflexivity|]. rewrite ln_eqb_refl. exact IHn. Qed.
+
+Lemma read_bridge a k mode tr pre post res :
+  let c := CRead a k mode tr pre post res in
+  run_case c = true ->
+  disciplined_reader (expand tr) = true ->
+  single_op (writer_part (expand tr)) = true ->
+  disciplined (expand tr) = true ->
+  (res =? 0) = false ->
+  (res =? pre) || (res =? post) = true.
+Proof.
+  intros c R DR SO D NZ. set (t := expand tr) in *.
+  destruct (single_op_spec _ SO) as [o [wbody [ok [W NM]]]].
+  destruct (one_bracket_spec _ DR) as [n RP].
+  destruct (isolated (list N) log_apply [] t o wbody ok (S n) W NM D RP) as [x [Hs [Hx _]]].
+  rewrite log_apply_all in Hx. simpl in Hx.
+  unfold c, run_case in R. fold t in R. unfold read_predict, reader_view in R.
+  unfold log_sem in R. rewrite Hs in R. simpl repeat in R. cbv iota beta in R.
+  rewrite forallb_repeat_refl in R.
+  unfold agrees in R. rewrite NZ in R. simpl in R.
+  destruct Hx as [-> | ->].
+  - simpl in R. rewrite R. reflexivity.
+  - unfold classify in R. destruct (writes_of t) as [|w ws] eqn:E.
+    + rewrite R. reflexivity.
+    + rewrite ln_eqb_refl in R. rewrite R. apply orb_true_r.
+Qed.
+
+Lemma snapshot_reads_bracketed : forallb (fun p : string * bool => snd p) snapshot_reads = true.
+Proof. vm_compute. reflexivity. Qed.
